@@ -3,6 +3,7 @@ Line-protocol driver: answers the same requests as the Rust harness, from the Im
 usage: hbsdriver [maxLevels heightsCsv winternitzCsv]
 -/
 import HbsLms.Impl.FastVerify
+import HbsLms.Spec.Rfc8554
 
 open Impl
 
@@ -123,6 +124,13 @@ def runOp (cfg : Config) (H : HashFn) (op : String) (a : List (String × String)
     pure <| match Params.lmotsGetFromType H.n t with
       | none => "none"
       | some p => showP (fastVerifyEval H.n p d) fun v => s!"ok {v}"
+  | "specverify" => do
+    -- the RFC 8554 specification (Spec/Rfc8554.lean) executed on the same bytes, with the library's type-code tables
+    let msg ← argBytes a "msg"
+    let sig ← argBytes a "sig"
+    let pk ← argBytes a "pk"
+    let T : Spec.Tables := ⟨Params.lmotsGetFromType H.n, Params.lmsGetFromType⟩
+    pure (if Spec.hssValid H T cfg.maxLevels msg sig pk then "ok" else "err")
   | "lifetime" => do
     let sk ← argBytes a "sk"
     pure <| showP (getLifetime H cfg sk) fun r =>
